@@ -970,3 +970,9 @@ func helperResultLeaves(p *Prog, l ssa.Value) []ssa.Value {
 	}
 	return out
 }
+
+// isZero: the integer constant 0.
+func isZero(v ssa.Value) bool {
+	k, ok := constInt(v)
+	return ok && k == 0
+}
